@@ -519,6 +519,25 @@ func ruleL7(p *Prog, r *Report) {
 						}
 						cons := fmt.Sprintf("co-update:%s:%s.%s=>%s", p.Name(top), owner, path, must)
 						bad := openPath(top, w.in, S, nil)
+						if bad == nil && inErrorHandler(top, w.in.Block()) {
+							// a write made while handling a failure (a rollback): the object is handed back to the caller
+							// with the error, so the pairing must hold on the error returns too
+							var esc *ssa.Return
+							reachFrom(top, w.in, nil, func(y ssa.Instruction) bool {
+								if esc != nil || S[y] {
+									return true
+								}
+								if ret, ok := y.(*ssa.Return); ok && y != w.in {
+									esc = ret
+									return true
+								}
+								return false
+							})
+							if esc != nil {
+								r.Bad(R, cons, p.InstrPos(w.in), fmt.Sprintf("%s.%s is written while a failure is being handled (a rollback) but %s is not brought back with it before the error return at %s: the object the caller keeps using reports a size that no longer matches its content", owner, path, must, p.InstrPos(esc)))
+								continue
+							}
+						}
 						if bad == nil {
 							r.Ok(R, cons, p.InstrPos(w.in), row.why+": every success path through this write also writes "+must)
 							continue
@@ -573,3 +592,17 @@ func (p *Prog) callersCoUpdate(helper *ssa.Function, owner, must string) bool {
 }
 
 var _ = sort.Strings
+
+// inErrorHandler: block b lies on the non-nil edge of a test of an error value.
+func inErrorHandler(f *ssa.Function, b *ssa.BasicBlock) bool {
+	for _, x := range f.Blocks {
+		ifi, ok := x.Instrs[len(x.Instrs)-1].(*ssa.If)
+		if !ok {
+			continue
+		}
+		if _, nn, ok := errTestOf(ifi); ok && edgeDominates(x, nn, b) {
+			return true
+		}
+	}
+	return false
+}
